@@ -244,6 +244,8 @@ func (o Op) String() string {
 		return fmt.Sprintf("Bind(n%d){%s}", o.A, casesStr(o.Cases))
 	case "NewBindMemo":
 		return fmt.Sprintf("BindMemoized(n%d){%s}", o.A, casesStr(o.Cases))
+	case "NewBind2":
+		return fmt.Sprintf("Bind2(n%d,n%d){%s}", o.A, o.B, casesStr(o.Cases))
 	case "PurgeMemo":
 		return fmt.Sprintf("n%d.Cache().Purge(%d)", o.A, o.V)
 	case "ClearMemo":
